@@ -23,6 +23,7 @@ import (
 
 	"verif/harness/cmapref"
 	"verif/harness/ev"
+	"verif/harness/hostile"
 	"verif/harness/t1gen"
 	"verif/harness/t1ref"
 )
@@ -699,12 +700,21 @@ func nestedSeacFont(t *rapid.T) []byte {
 func TestP3Reread(t *testing.T) {
 	rec := ev.New("C17", "reread")
 	defer rec.Finish(t)
-	rec.Rule(fmt.Sprintf("fonts laid out by the independent writer (model fonts of the C06 generator with subrs/flex/several accented composites, and fonts whose composites refer to other composites in chains of 2-6 defined in a drawn order - not conforming, but any accepted input must read deterministically; and files that define two or three fonts under different names) are read %d times from the same bytes, in half of the cases with other inputs read in between (programs that store into StandardEncoding, FontDirectory, internaldict, errordict, userdict, systemdict, the CIDInit procedure set or the resource directories); all results must be deep-equal. Non-trivial: font has >= 2 composites; distinct by bytes.", repeats))
+	rec.Rule(fmt.Sprintf("fonts laid out by the independent writer (model fonts of the C06 generator with subrs/flex/several accented composites, and fonts whose composites refer to other composites in chains of 2-6 defined in a drawn order - not conforming, but any accepted input must read deterministically; files that define two or three fonts under different names; and structure-aware damaged fonts of the C01 generators - random charstrings, composites without width or with damaged components, glyphs holding half of a flex / othersubr / hint-replacement sequence next to glyphs holding the whole) are read %d times from the same bytes, in half of the cases with other inputs read in between (programs that store into StandardEncoding, FontDirectory, internaldict, errordict, userdict, systemdict, the CIDInit procedure set or the resource directories, or damaged fonts whose reading fails half-way); all results must be deep-equal. Non-trivial: font has >= 2 composites; distinct by bytes.", repeats))
 	ev.SetupRapid(3000, 64000)
 	rapid.Check(t, func(t *rapid.T) {
 		var data []byte
 		multi := false
-		if k := rapid.IntRange(0, 4).Draw(t, "rereadkind"); k == 0 {
+		if k := rapid.IntRange(0, 6).Draw(t, "rereadkind"); k >= 5 {
+			// structure-aware damaged fonts (the C01 generators): accepted or
+			// rejected, the outcome must be the same every time - glyphs with
+			// half a flex sequence or a stray pop next to glyphs with the
+			// complete feature, damaged composites, random charstrings
+			f, label := hostile.Font(t)
+			data = t1ref.WriteRaw(f)
+			multi = len(f.Glyphs) >= 2
+			rec.Class("damaged:" + label)
+		} else if k == 0 {
 			// a file that defines two or three fonts under different names:
 			// whatever the reader makes of it, it must make the same of it
 			// every time
@@ -734,6 +744,13 @@ func TestP3Reread(t *testing.T) {
 		if rapid.Bool().Draw(t, "history") {
 			rec.Class("with-other-inputs-between")
 			for i := rapid.IntRange(1, 3).Draw(t, "nbetween"); i > 0; i-- {
+				if rapid.IntRange(0, 3).Draw(t, "betweenkind") == 0 {
+					// a damaged font read in between (a read that fails half-way
+					// must leave nothing behind)
+					f, _ := hostile.Font(t)
+					c.Between = append(c.Between, string(t1ref.WriteRaw(f)))
+					continue
+				}
 				c.Between = append(c.Between, rapid.SampledFrom(perturbations).Draw(t, "between"))
 			}
 		}
